@@ -102,6 +102,54 @@ func (Engine) Generate(prop string, r *kit.Rand, tier string) *kit.Scenario[Conf
 	for _, l := range c.Late {
 		crashed[l] = true
 	}
+	// C19: often make one prefix multi-homed early on, then let the network learn about it
+	if prop == "C19" && c.N >= 3 && r.Chance(0.5) {
+		p := kit.Pick(r, prefixes)
+		k := r.Range(2, min(3, c.N))
+		for _, x := range r.Perm(c.N)[:k] {
+			sc.Ops = append(sc.Ops, Op{Op: "announce", R: x, Prefix: p})
+		}
+		// a quiet convergence phase so that later faults hit an installed multi-homed prefix
+		if r.Chance(0.7) {
+			for round := 0; round < 3; round++ {
+				for x := 0; x < c.N; x++ {
+					sc.Ops = append(sc.Ops, Op{Op: "tick", R: x})
+				}
+				for d := 0; d < 6*c.N; d++ {
+					sc.Ops = append(sc.Ops, Op{Op: "deliver", K: 0})
+				}
+				sc.Ops = append(sc.Ops, Op{Op: "advance", Ms: 100})
+			}
+			wReface, wLink = 8, 8
+			// a router with a single neighbour sees every remote announcer through one face:
+			// change that face's id (or flap the link) while the multi-homed prefix is installed
+			deg := map[int][]int{}
+			for _, l := range c.Links {
+				deg[l[0]] = append(deg[l[0]], l[1])
+				deg[l[1]] = append(deg[l[1]], l[0])
+			}
+			for x := 0; x < c.N; x++ {
+				if len(deg[x]) == 1 && r.Chance(0.6) {
+					if r.Chance(0.7) {
+						sc.Ops = append(sc.Ops, Op{Op: "reface", A: x, B: deg[x][0]})
+					} else {
+						sc.Ops = append(sc.Ops, Op{Op: "linkdown", A: x, B: deg[x][0]}, Op{Op: "advance", Ms: c.DeadMs + 1000},
+							Op{Op: "deadcheck", R: x}, Op{Op: "linkup", A: x, B: deg[x][0]})
+					}
+					for round := 0; round < 2; round++ {
+						for y := 0; y < c.N; y++ {
+							sc.Ops = append(sc.Ops, Op{Op: "tick", R: y})
+						}
+						for d := 0; d < 5*c.N; d++ {
+							sc.Ops = append(sc.Ops, Op{Op: "deliver", K: 0})
+						}
+						sc.Ops = append(sc.Ops, Op{Op: "advance", Ms: 100})
+					}
+					break
+				}
+			}
+		}
+	}
 	for i := 0; i < nops; i++ {
 		switch r.Weighted([]int{wTick, wDeliver, wDrop, wDup, wAdv, wLink, wCrash, wPfx, wReface, wDead, wMgmt}) {
 		case 0:
